@@ -64,6 +64,9 @@ type scanSetup struct {
 	tac      bool
 	sort     bool
 	tail     int
+	// ranked tells whether the documentation lets this query be ranked: it has at least one
+	// term that is not negated (an empty or negation-only query lists in input order)
+	ranked bool
 }
 
 func (s scanSetup) String() string {
@@ -134,10 +137,12 @@ func genScanSetup(t *rapid.T, maxLines []int) scanSetup {
 			q := gen.Query(t, 3, true)
 			s.query = gen.QueryText(t, q, s.o)
 			bodies = gen.Bodies(q)
+			s.ranked = q.HasPositive()
 		}
 	} else {
 		s.query = string(rapid.SliceOfN(rapid.SampledFrom([]rune("abAB1_ é")), 0, 3).Draw(t, "raw"))
 		bodies = []string{s.query}
+		s.ranked = strings.TrimSpace(s.query) != "" || s.query != ""
 	}
 	pool := gen.Lines(t, bodies, 1, 9, 14)
 	n := rapid.SampledFrom(maxLines).Draw(t, "n")
@@ -179,7 +184,10 @@ func TestVerifC04_ScanMerge(t *testing.T) {
 				}
 			}
 		}
-		sorted := s.sort && iso.sortable && !iso.IsEmpty()
+		sorted := s.sort && s.ranked && !iso.IsEmpty()
+		if iso.sortable != (s.ranked && !iso.IsEmpty()) && !iso.IsEmpty() {
+			t.Fatalf("%s: the pattern is marked sortable=%v, but the query has %s term that is not negated", s, iso.sortable, map[bool]string{true: "a", false: "no"}[s.ranked])
+		}
 		if sorted {
 			sort.SliceStable(want, func(i, j int) bool { return lessRank(want[i], want[j], s.tac) })
 		} else if s.tac {
